@@ -426,6 +426,9 @@ class ProjectData(sc.prettyobj):
                     # Store the TDVE on the page it was actually on, rather than the one in the framework. Then, if users move anything around, the change will persist
                     self.tdve_pages[sheet.title].append(code_name)
 
+        if not self.pops:
+            raise InvalidDatabook('The databook does not define any populations - it must contain a "Population Definitions" sheet with at least one population')
+
         # Check that transfer and interaction names are unique
         _interactions = {}
         for interaction in self.transfers + self.interpops:
